@@ -184,6 +184,11 @@ def derive_step(meta, g):
     n, k = meta["n"], r.choice([1, 2, 3, 4])
     st["k"] = k
     st["outw"] = [r.uniform(0.01, 1.0) for _ in range(k)]
+    st["alias"] = r.random() < 0.2          # the same mixture passed as input and output
+    st["cskip"] = 0
+    if meta["op"] == "ukfc" and r.random() < 0.25:
+        st["cskip"] = 2 if meta.get("cskipping") else 1     # GaussianCorrection::skip on / off again
+    st["cskipping"] = (st["cskip"] == 1) or (bool(meta.get("cskipping")) and st["cskip"] != 2)
     if meta["op"] == "ukfp":
         _, d = U.rnd_scales(g, n)
         st["Ps"] = [U.scale_cov(U.rnd_psd(g, n, r.choice(U.PSD_STYLES)), d) for _ in range(k)]
@@ -266,9 +271,9 @@ def seq_line(steps):
             h += U.cm_tokens(m0["G"]) + U.cm_tokens(m0["Q"]) + U.cm_tokens(m0["Qeff"])
         else:
             h += U.cm_tokens(m0["Q"])
-        h += [hexd(x) for x in m0["u"]] + [str(len(steps))]
+        h += [hexd(x) for x in m0["u"]] + [str(len(steps)), str(m0.get("hand", 0))]
         for st in steps:
-            h += ["1" if st["skip"] else "0", str(st["k"])]
+            h += ["1" if st["skip"] else "0", str(st["k"]), "1" if st.get("alias") else "0"]
             if st.get("mchg"):
                 h += ["1"] + U.cm_tokens(st["F"])
                 if v == 1:
@@ -285,9 +290,9 @@ def seq_line(steps):
             h += U.cm_tokens(m0["D"]) + U.cm_tokens(m0["R"]) + U.cm_tokens(m0["Reff"])
         else:
             h += U.cm_tokens(m0["R"])
-        h += [str(len(steps))]
+        h += [str(len(steps)), str(m0.get("hand", 0))]
         for st in steps:
-            h += [str(st["fail"]), str(st["k"])]
+            h += [str(st["fail"]), str(st["k"]), "1" if st.get("alias") else "0", str(st.get("cskip", 0))]
             if st.get("chg"):
                 h += [str(int(st["chg"]))] + U.cm_tokens(st["H"])
                 if v == 1:
@@ -538,6 +543,12 @@ def check_ukfc(meta, h, stats, notes):
     if uw != kw:
         notes["correct_weights_differ_ukf_vs_kf"] = notes.get("correct_weights_differ_ukf_vs_kf", 0) + 1
     o = {"um": um, "uc": uc, "km": km, "kc": kc, "ulik": ulik, "klik": klik, "X": X}
+    if meta.get("cskipping"):
+        # both corrections are being skipped (GaussianCorrection::skip, a flag a moved object keeps): both hand the
+        # predicted belief over, hence coincide exactly
+        if um != km or uc != kc:
+            return [("prop", "skipped-correction-differs", "correction skipped on both filters (skip(true)%s): UKFCorrection and KFCorrection return different beliefs" % (", UKF object handed over by move construction" if meta.get("hand_obj") else ""))], None, None
+        return [], None, None
     if meta["fail"]:
         # not part of the property: counted only
         pm = [[Fraction(v) for v in meta["means"][i]] for i in range(k)]
@@ -693,6 +704,18 @@ def run(ctx):
         if g.r.random() < (0.85 if st[0].get("online") else 0.5):
             for _ in range(g.r.choice([1, 2, 3])):
                 st.append(derive_step(st[-1], g))
+        if len(st) > 1 or g.r.random() < 0.3:
+            # object hand-over (move construction before / after the first step; move assignment for predictions)
+            st[0]["hand"] = g.r.choice([0, 1, 1, 2, 2] + ([3] if st[0]["op"] == "ukfp" else []))
+            st[0]["alias"] = g.r.random() < 0.2
+            if st[0]["op"] == "ukfc" and g.r.random() < 0.15:
+                st[0]["cskip"] = 1
+                st[0]["cskipping"] = True
+                for i_ in range(1, len(st)):      # the derived steps were drawn before: recompute the skip state
+                    prev_ = st[i_ - 1]
+                    if st[i_].get("cskip") == 1 and prev_.get("cskipping"):
+                        st[i_]["cskip"] = 2
+                    st[i_]["cskipping"] = (st[i_].get("cskip") == 1) or (bool(prev_.get("cskipping")) and st[i_].get("cskip") != 2)
         objects.append(st)
     import json
     ncorpus = 0
@@ -708,7 +731,8 @@ def run(ctx):
         objects = [rm["steps"] if isinstance(rm, dict) and "steps" in rm else [rm]]
     ohl = []
     for st in objects:
-        if len(st) == 1:
+        plain = len(st) == 1 and not st[0].get("hand") and not st[0].get("alias") and not st[0].get("cskip")
+        if plain:
             ohl.append((ukfp_lines(st[0]) if st[0]["op"] == "ukfp" else ukfc_lines(st[0]))[0])
         else:
             ohl.append(seq_line(st))
@@ -716,16 +740,26 @@ def run(ctx):
     # flatten to single steps
     metas, hl, hout, snaps = [], [], [], []
     for st, line, h in zip(objects, ohl, ohout):
-        outs = split_seq(h, len(st)) if len(st) > 1 else [h]
+        outs = split_seq(h, len(st)) if line.startswith("ukfps") or line.startswith("ukfcs") else [h]
         sn = U.snap({"steps": st})
         for si, (m_, ho) in enumerate(zip(st, outs)):
             m_ = dict(m_)
             m_["step"] = si
+            m_["hand_obj"] = st[0].get("hand", 0)
             metas.append(m_)
             hl.append(line)
             hout.append(ho)
             snaps.append(sn)
         hist["steps-per-object=%d" % len(st)] = hist.get("steps-per-object=%d" % len(st), 0) + 1
+        if st[0].get("hand"):
+            kk = "hand-over:%s:%s" % ("prediction" if st[0]["op"] == "ukfp" else "correction", {1: "move-constructed before first step", 2: "move-constructed between steps", 3: "move-assigned between steps"}[st[0]["hand"]])
+            hist[kk] = hist.get(kk, 0) + 1
+        for m_ in st:
+            if m_.get("alias"):
+                kk = "aliasing:%s(b, b)" % ("predict" if m_["op"] == "ukfp" else "correct")
+                hist[kk] = hist.get(kk, 0) + 1
+            if m_.get("cskipping"):
+                hist["correction-skip-flag-set"] = hist.get("correction-skip-flag-set", 0) + 1
         nchg = sum(1 for m_ in st if m_.get("chg") == 1)
         if nchg:
             hist["online-weights:noise-dimension-changed-between-steps"] = hist.get("online-weights:noise-dimension-changed-between-steps", 0) + nchg
